@@ -40,31 +40,13 @@ theorem pin_autodiff_compute_jacobian_anchor : pin_autodiff_compute_jacobian = "
 theorem pin_autodiff_compile_jacobian_anchor : pin_autodiff_compile_jacobian = "40a13139a06a856b" := rfl
 /-- `_is_scaled_variable_pattern` (core/autodiff.py) -/
 theorem pin_autodiff_is_scaled_variable_pattern_anchor : pin_autodiff_is_scaled_variable_pattern = "42815e8f3d31e8be" := rfl
-/-- `VectorSum.jacobian_row` (core/vectors.py) -/
-theorem pin_vectors_VectorSum_jacobian_row_anchor : pin_vectors_VectorSum_jacobian_row = "a9e2562bc524af11" := rfl
-/-- `VectorExpressionSum.jacobian_row` (core/vectors.py) -/
-theorem pin_vectors_VectorExpressionSum_jacobian_row_anchor : pin_vectors_VectorExpressionSum_jacobian_row = "c64ab8a7fc234836" := rfl
-/-- `DotProduct.jacobian_row` (core/vectors.py) -/
-theorem pin_vectors_DotProduct_jacobian_row_anchor : pin_vectors_DotProduct_jacobian_row = "5384af6ede2639b3" := rfl
-/-- `LinearCombination.jacobian_row` (core/vectors.py) -/
-theorem pin_vectors_LinearCombination_jacobian_row_anchor : pin_vectors_LinearCombination_jacobian_row = "2bd1eabc5cf2122f" := rfl
-/-- `VectorPowerSum.jacobian_row` (core/vectors.py) -/
-theorem pin_vectors_VectorPowerSum_jacobian_row_anchor : pin_vectors_VectorPowerSum_jacobian_row = "7fcce5d34d641fc5" := rfl
-/-- `VectorUnarySum.jacobian_row` (core/vectors.py) -/
-theorem pin_vectors_VectorUnarySum_jacobian_row_anchor : pin_vectors_VectorUnarySum_jacobian_row = "b456340f97552001" := rfl
-/-- `MatrixSum.jacobian_row` (core/matrices.py) -/
-theorem pin_matrices_MatrixSum_jacobian_row_anchor : pin_matrices_MatrixSum_jacobian_row = "1185125687c75b7f" := rfl
-/-- `QuadraticForm.jacobian_row` (core/matrices.py) -/
-theorem pin_matrices_QuadraticForm_jacobian_row_anchor : pin_matrices_QuadraticForm_jacobian_row = "8fb0eb162d8ec422" := rfl
-/-- `Expression.jacobian_row` (core/expressions.py) -/
-theorem pin_expressions_Expression_jacobian_row_anchor : pin_expressions_Expression_jacobian_row = "c64ab8a7fc234836" := rfl
 /-- `compute_hessian` (core/autodiff.py) -/
 theorem pin_autodiff_compute_hessian_anchor : pin_autodiff_compute_hessian = "f3eb8610c9cabefb" := rfl
 /-- `compile_hessian` (core/autodiff.py) -/
 theorem pin_autodiff_compile_hessian_anchor : pin_autodiff_compile_hessian = "50982ad58c3902f9" := rfl
 
 /-- every function the model of C09 transcribes (and no translator covers) is the one it was read from -/
-theorem anchors : pin_scipy_solver_solve_scipy = "aec366bec19bdafe" ∧ pin_compiler_compile_expression = "db0179ead8cd3aa4" ∧ pin_compiler_compile_cached = "4ab132ae0ee10316" ∧ pin_compiler_estimate_tree_depth = "6602d5290a7341a7" ∧ pin_compiler_param_value = "79e7de7cdae81265" ∧ pin_compiler_build_evaluator = "1713d91c1ff10a41" ∧ pin_compiler_build_vector_evaluator = "67df2b0fb1835668" ∧ pin_compiler_build_evaluator_iterative = "d5dd43419b94dc08" ∧ pin_compiler_compile_to_dict_function = "9c1b94dcff42b825" ∧ pin_compiler_CompiledExpression = "46e07aadf48eb02a" ∧ pin_compiler_compile_gradient = "19d1f93c3bdc18f8" ∧ pin_compiler_compile_vectorized_power_gradient = "abe0e8d8d48a69e7" ∧ pin_compiler_compile_vectorized_unary_gradient = "6e886c928b66b5e2" ∧ pin_autodiff_compute_jacobian = "1bbc421469667ba6" ∧ pin_autodiff_compile_jacobian = "40a13139a06a856b" ∧ pin_autodiff_is_scaled_variable_pattern = "42815e8f3d31e8be" ∧ pin_vectors_VectorSum_jacobian_row = "a9e2562bc524af11" ∧ pin_vectors_VectorExpressionSum_jacobian_row = "c64ab8a7fc234836" ∧ pin_vectors_DotProduct_jacobian_row = "5384af6ede2639b3" ∧ pin_vectors_LinearCombination_jacobian_row = "2bd1eabc5cf2122f" ∧ pin_vectors_VectorPowerSum_jacobian_row = "7fcce5d34d641fc5" ∧ pin_vectors_VectorUnarySum_jacobian_row = "b456340f97552001" ∧ pin_matrices_MatrixSum_jacobian_row = "1185125687c75b7f" ∧ pin_matrices_QuadraticForm_jacobian_row = "8fb0eb162d8ec422" ∧ pin_expressions_Expression_jacobian_row = "c64ab8a7fc234836" ∧ pin_autodiff_compute_hessian = "f3eb8610c9cabefb" ∧ pin_autodiff_compile_hessian = "50982ad58c3902f9" :=
-  ⟨pin_scipy_solver_solve_scipy_anchor, pin_compiler_compile_expression_anchor, pin_compiler_compile_cached_anchor, pin_compiler_estimate_tree_depth_anchor, pin_compiler_param_value_anchor, pin_compiler_build_evaluator_anchor, pin_compiler_build_vector_evaluator_anchor, pin_compiler_build_evaluator_iterative_anchor, pin_compiler_compile_to_dict_function_anchor, pin_compiler_CompiledExpression_anchor, pin_compiler_compile_gradient_anchor, pin_compiler_compile_vectorized_power_gradient_anchor, pin_compiler_compile_vectorized_unary_gradient_anchor, pin_autodiff_compute_jacobian_anchor, pin_autodiff_compile_jacobian_anchor, pin_autodiff_is_scaled_variable_pattern_anchor, pin_vectors_VectorSum_jacobian_row_anchor, pin_vectors_VectorExpressionSum_jacobian_row_anchor, pin_vectors_DotProduct_jacobian_row_anchor, pin_vectors_LinearCombination_jacobian_row_anchor, pin_vectors_VectorPowerSum_jacobian_row_anchor, pin_vectors_VectorUnarySum_jacobian_row_anchor, pin_matrices_MatrixSum_jacobian_row_anchor, pin_matrices_QuadraticForm_jacobian_row_anchor, pin_expressions_Expression_jacobian_row_anchor, pin_autodiff_compute_hessian_anchor, pin_autodiff_compile_hessian_anchor⟩
+theorem anchors : pin_scipy_solver_solve_scipy = "aec366bec19bdafe" ∧ pin_compiler_compile_expression = "db0179ead8cd3aa4" ∧ pin_compiler_compile_cached = "4ab132ae0ee10316" ∧ pin_compiler_estimate_tree_depth = "6602d5290a7341a7" ∧ pin_compiler_param_value = "79e7de7cdae81265" ∧ pin_compiler_build_evaluator = "1713d91c1ff10a41" ∧ pin_compiler_build_vector_evaluator = "67df2b0fb1835668" ∧ pin_compiler_build_evaluator_iterative = "d5dd43419b94dc08" ∧ pin_compiler_compile_to_dict_function = "9c1b94dcff42b825" ∧ pin_compiler_CompiledExpression = "46e07aadf48eb02a" ∧ pin_compiler_compile_gradient = "19d1f93c3bdc18f8" ∧ pin_compiler_compile_vectorized_power_gradient = "abe0e8d8d48a69e7" ∧ pin_compiler_compile_vectorized_unary_gradient = "6e886c928b66b5e2" ∧ pin_autodiff_compute_jacobian = "1bbc421469667ba6" ∧ pin_autodiff_compile_jacobian = "40a13139a06a856b" ∧ pin_autodiff_is_scaled_variable_pattern = "42815e8f3d31e8be" ∧ pin_autodiff_compute_hessian = "f3eb8610c9cabefb" ∧ pin_autodiff_compile_hessian = "50982ad58c3902f9" :=
+  ⟨pin_scipy_solver_solve_scipy_anchor, pin_compiler_compile_expression_anchor, pin_compiler_compile_cached_anchor, pin_compiler_estimate_tree_depth_anchor, pin_compiler_param_value_anchor, pin_compiler_build_evaluator_anchor, pin_compiler_build_vector_evaluator_anchor, pin_compiler_build_evaluator_iterative_anchor, pin_compiler_compile_to_dict_function_anchor, pin_compiler_CompiledExpression_anchor, pin_compiler_compile_gradient_anchor, pin_compiler_compile_vectorized_power_gradient_anchor, pin_compiler_compile_vectorized_unary_gradient_anchor, pin_autodiff_compute_jacobian_anchor, pin_autodiff_compile_jacobian_anchor, pin_autodiff_is_scaled_variable_pattern_anchor, pin_autodiff_compute_hessian_anchor, pin_autodiff_compile_hessian_anchor⟩
 
 end Optyx.Props.PinsC09
